@@ -283,6 +283,9 @@ def _update_local_references(rules, extends):
     rule_names = _rule_names(rules, extends)
 
     def previsit(node):
+        if node.defines_local and counter.is_bound(node.name):
+            node.shadows_outer_binding = True
+
         counter.previsit(node)
         if node.is_reference and counter.is_bound(node.name):
             # (A class member that has the name of a rule does not hide the
